@@ -4,7 +4,7 @@ from mc import core
 from models import inert
 
 ID = 'C14'
-TECHNIQUE = ('exhaustive enumeration of all token sequences (length <= 2/3 over a 136-token vocabulary, <= 3/4 over a '
+TECHNIQUE = ('exhaustive enumeration of all token sequences (length <= 2/3 over a 141-token vocabulary, <= 3/4 over a '
              '40-token sub-vocabulary) x every placement of line breaks, filtered by a spec-derived inertness '
              'predicate; output must be exactly the escaped text in one <p>')
 ASSUMPTIONS = ['models/inert.py is conservative: paragraphs it rejects are outside the domain and only counted']
@@ -18,11 +18,11 @@ VOC = ['foo', 'bar', 'snake_case', '_x', 'x_', 'a_b_c', '*', '-', '+', '#', '>',
        '日本', '\xa1hola!', '“q”', '—', 'a—b', '5>3', 'x^2', 'a_', '_', 'a~b', '1.a',
        '.a', 'a)', '#.', '=a', '>a', '&notit;', '0.', '12)', '&amp', '***', '___', '=-', '--|x', '|-x', '-1|2', ':-', '-:', '10.', '1986.',
        # words ending in a combining mark / format character (general categories Mn, Mc, Cf: neither punctuation nor white space) before '_'
-       '``', 'x```', 'a``',
+       '``', 'x```', 'a``', ':-:', '--:', '&#x1234567;', '&#12345678;', '&#x0000041;',
        're\u0301sume\u0301_final_', 'a\u200c_b_', '\u0915\u093f_\u0916_', '\u0e19\u0e35\u0e48_x_', 'x\xad*y*z', '*\u0301a']
 SUB = ['foo', 'snake_case', '_x', 'x_', '*', '-', '+', '#', '>', '=', '|', '~', '[', ']', '(', ')', '&', 'AT&T', 'a&b;',
        '3.14', '1.5)', '2', '.', ')', '--', '==', 'a#', '<', 'a<b', '**', '__', '`', '\\a', 'a\\', '1.', '1)', '*a',
-       'a*', '[x]', '&notit;', '12)', '10.', 're\u0301sume\u0301_final_', '``', 'x```', 'a|b', '-1|2', '--|x']
+       'a*', '[x]', '&notit;', '12)', '10.', 're\u0301sume\u0301_final_', '``', 'x```', 'a|b', '-1|2', '--|x', ':-:', '&#x1234567;']
 
 BOUNDS = {'quick': dict(full=2, sub=3), 'thorough': dict(full=3, sub=4)}
 
